@@ -173,7 +173,7 @@ C10_Period ==            \* the k-th firing is at least k periods after the firs
     /\ \A f, g \in FiresOf(i) : g[2] = f[2] + 1 => g[3] >= f[3] + tmr[i].period
 C10_Once ==              \* delayed_send / delayed_exec fire exactly once (at most once in every prefix)
   \A i \in DOMAIN tmr : tmr[i].kind \in {"delayed_send", "delayed_exec"} =>
-     (tmr[i].k <= 1 /\ (tmr[i].k = 1 => tmr[i].st \in {"flush", "ended", "aborted"}))
+     (tmr[i].k <= 1 /\ (tmr[i].k = 1 => tmr[i].st \in {"flush", "body", "ended", "aborted"}))
 C10_DieWithActor ==      \* nothing fires into a terminated actor, and no tick of it is handled afterwards
   \A i \in DOMAIN tmr : Terminated(tmr[i].a) => tmr[i].st \in {"aborted", "ended"}
 C10_TicksAreFires ==     \* every handled tick was fired by its timer (no invented / duplicated ticks)
